@@ -1,6 +1,6 @@
 (* C11 - a consumer ends with exactly one terminal message and nothing after it.
    This file only pins statements. *)
-From Amq Require Import Lib.Base Gen.Consts Model.Wire Model.Frames Model.OutBuf Model.Collector Model.Slots Model.Core Spec.Slots Spec.Content Proofs.Slots Proofs.OutBuf Proofs.Collector Proofs.CoreContent Proofs.CoreInv Proofs.CoreMore.
+From Amq Require Import Lib.Base Gen.Consts Model.Wire Model.Frames Model.OutBuf Model.Collector Model.Slots Model.Core Spec.Slots Spec.Content Proofs.Slots Proofs.OutBuf Proofs.Collector Proofs.CoreContent Proofs.CoreInv Proofs.CoreMore Model.CancelRace Proofs.CancelRace.
 
 (* CancelOk for tag: the caller gets the reply, the consumer's queue gets ClientCancelled appended (history = history ++ [ClientCancelled]), its sender is dropped in the same step, the tag leaves the table *)
 Theorem C11_client_cancel : forall (n : N) (tag dbg : str) (c : core) (s : slot) (q : N), steady c -> n <> 0 -> alookup n (c_slots c) = Some s -> lookup_tag tag (s_consumers s) = Some q -> q <> s_reply s -> has_room (s_reply s) (c_qs c) -> receivable q (c_qs c) -> exists c' : core, process c (FMethod n (MCancelOk tag), dbg) = (OOk, c') /\ (exists s' : slot, alookup n (c_slots c') = Some s' /\ lookup_tag tag (s_consumers s') = None) /\ (exists qu qu' : queue, alookup q (c_qs c) = Some qu /\ alookup q (c_qs c') = Some qu' /\ q_hist qu' = q_hist qu ++ [IClientCancelled] /\ q_tx qu' = false).
@@ -22,14 +22,32 @@ Proof. exact deliver_roundtrip. Qed.
 Theorem C11_no_panic : forall (c : core) (f : dframe) (o : outcome) (c' : core), process c f = (o, c') -> WFs c -> (forall site : N, o <> OPanic site) /\ WFs c'.
 Proof. exact process_WFs. Qed.
 
+(* The one handler step that is not atomic with respect to a client thread: for a CancelOk (and likewise for the close arms) the I/O thread does two queue operations - the consumer's terminal message and the answer that releases the blocked caller - and the released caller (Consumer::drop) drops the consumer's receiver. With the notice first, under EVERY schedule of the two threads no send ever finds the receiver gone, and once the thread is done the consumer has its terminal message and the caller its answer *)
+Theorem C11_notice_before_release : forall sched : list actor, let s := rrun (rinit order_now) sched in r_failed s = false /\ (r_todo s = [] -> r_notified s = true /\ r_reply_sent s = true).
+Proof. exact notify_first_safe. Qed.
+
+(* ... the caller is never released before the consumer has its terminal message *)
+Theorem C11_released_after_notice : forall sched : list actor, let s := rrun (rinit order_now) sched in r_caller s <> Blocked -> r_notified s = true.
+Proof. exact released_after_notice. Qed.
+
+(* ... whereas the order the code had before the repair (answer first) has a schedule - I/O thread answers, caller wakes and drops the receiver, the notice finds it gone - that ends the I/O loop with EventLoopClientDropped: the witness replayed on the real code by the c11l2 driver (scheduling point 2) *)
+Theorem C11_answer_first_refuted : exists sched : list actor, r_failed (rrun (rinit order_before) sched) = true.
+Proof. exact reply_first_refuted. Qed.
+
 Check C11_client_cancel : forall (n : N) (tag dbg : str) (c : core) (s : slot) (q : N), steady c -> n <> 0 -> alookup n (c_slots c) = Some s -> lookup_tag tag (s_consumers s) = Some q -> q <> s_reply s -> has_room (s_reply s) (c_qs c) -> receivable q (c_qs c) -> exists c' : core, process c (FMethod n (MCancelOk tag), dbg) = (OOk, c') /\ (exists s' : slot, alookup n (c_slots c') = Some s' /\ lookup_tag tag (s_consumers s') = None) /\ (exists qu qu' : queue, alookup q (c_qs c) = Some qu /\ alookup q (c_qs c') = Some qu' /\ q_hist qu' = q_hist qu ++ [IClientCancelled] /\ q_tx qu' = false).
 Check C11_server_cancel : forall (n : N) (tag : str) (nowait : bool) (dbg : str) (c : core) (s : slot) (q : N), steady c -> n <> 0 -> alookup n (c_slots c) = Some s -> lookup_tag tag (s_consumers s) = Some q -> receivable q (c_qs c) -> exists c' : core, process c (FMethod n (MCancel tag nowait), dbg) = (OOk, c') /\ c_out c' = (if nowait then c_out c else ob_append (c_out c) (ser_cancel_ok n tag)) /\ (exists s' : slot, alookup n (c_slots c') = Some s' /\ lookup_tag tag (s_consumers s') = None) /\ (exists qu qu' : queue, alookup q (c_qs c) = Some qu /\ alookup q (c_qs c') = Some qu' /\ q_hist qu' = q_hist qu ++ [IServerCancelled] /\ q_tx qu' = false).
 Check C11_nothing_after : forall (n : N) (tag : str) (dtag : N) (red : bool) (exch rk : str) (props : N) (dbg : str) (c : core) (s : slot), steady c -> n <> 0 -> alookup n (c_slots c) = Some s -> s_coll s = CStart (CDeliver tag dtag red exch rk) -> lookup_tag tag (s_consumers s) = None -> fst (process c (FHeader n 0 props, dbg)) = OErr (EUnknownConsumerTag n tag).
 Check C11_deliveries_in_order : forall (n : N) (c : core) (s : slot) (tag : str) (dtag : N) (red : bool) (exch rk : str) (props : N) (parts : list bytes) (q : N), steady c -> n <> 0 -> alookup n (c_slots c) = Some s -> s_coll s = CNone -> lookup_tag tag (s_consumers s) = Some q -> receivable q (c_qs c) -> valid_parts parts -> exists c' : core, process_all c (map (df n) (crender (CDeliver tag dtag red exch rk) props parts)) = (OOk, c') /\ upd n s (pushed q (IDelivery {| m_ch := n; m_dtag := dtag; m_redelivered := red; m_exch := exch; m_rk := rk; m_body := concat parts; m_props := props |}) (c_qs c)) c c'.
 Check C11_no_panic : forall (c : core) (f : dframe) (o : outcome) (c' : core), process c f = (o, c') -> WFs c -> (forall site : N, o <> OPanic site) /\ WFs c'.
+Check C11_notice_before_release : forall sched : list actor, let s := rrun (rinit order_now) sched in r_failed s = false /\ (r_todo s = [] -> r_notified s = true /\ r_reply_sent s = true).
+Check C11_released_after_notice : forall sched : list actor, let s := rrun (rinit order_now) sched in r_caller s <> Blocked -> r_notified s = true.
+Check C11_answer_first_refuted : exists sched : list actor, r_failed (rrun (rinit order_before) sched) = true.
 
 Print Assumptions C11_client_cancel.
 Print Assumptions C11_server_cancel.
 Print Assumptions C11_nothing_after.
 Print Assumptions C11_deliveries_in_order.
 Print Assumptions C11_no_panic.
+Print Assumptions C11_notice_before_release.
+Print Assumptions C11_released_after_notice.
+Print Assumptions C11_answer_first_refuted.
